@@ -383,6 +383,12 @@ func genStub(pkg LabPkg, code string) (string, error) {
 				if i == o.StrictShort {
 					return nil, nil
 				}
+				if i == 0 && o.StrictForeign {
+					if _, err := f(%s); err != nil {
+						return nil, err
+					}
+					return labrt.Foreign{Note: "not a response object of this operation"}, nil
+				}
 				return f(%s)
 			}
 		})
@@ -390,7 +396,7 @@ func genStub(pkg LabPkg, code string) (string, error) {
 	return out
 }
 
-`, fw.strictFn, fw.strictArg)
+`, fw.strictFn, fw.strictArg, fw.strictArg)
 			siExpr = "NewStrictHandler(&StrictStub{T: t, O: o}, strictMws(t, o))"
 			if hasFuncDecl(p, "NewStrictHandlerWithOptions") && p.typeNames()["StrictHTTPServerOptions"] {
 				// the second constructor of the net/http flavours, with handlers that answer as the default ones do
